@@ -316,6 +316,16 @@ theorem look_ok (M : Mem) (st : PState) (hI : PInv st) (hR : Rel M st) :
   · simp only [stepFails]
     exact ⟨rfl, hR.dropped⟩
 
+theorem flushed_inv (st : PState) (h : PInv st) : PInv (flushed st) :=
+  ⟨h.ndMem, h.ndIdx, h.ndData, h.typed, h.disk, h.seriesOK⟩
+
+theorem snap_ok (M : Mem) (st : PState) (hI : PInv st) (hR : Rel M st) :
+    (stepFails M (step10 st .snap).2).1 = none ∧ PInv (step10 st .snap).1 ∧
+    Rel (stepFails M (step10 st .snap).2).2 (step10 st .snap).1 := by
+  simp only [step10]
+  have h := look_ok M (flushed st) (flushed_inv st hI) ⟨hR.cur, hR.dropped⟩
+  exact ⟨h.1, flushed_inv st hI, h.2⟩
+
 /-! ### restarts -/
 
 theorem hasMeas_transfer (a b : Schema) (hb : ND b) (m : String) (ha : hasMeas a m = false)
@@ -356,26 +366,24 @@ theorem reopen_ok (M : Mem) (st : PState) (hI : PInv st) (hR : Rel M st) :
     (stepFails M (step10 st .reopen).2).1 = none ∧ PInv (step10 st .reopen).1 ∧
     Rel (stepFails M (step10 st .reopen).2).2 (step10 st .reopen).1 := by
   simp only [step10]
-  apply restart_ok M st .clean _ _ hI hR
-  · unfold closeFields
-    cases hl : st.log with
-    | none => exact hI.ndIdx
-    | some recs =>
-      simp only [writeToFile]
+  cases hl : st.log with
+  | none =>
+    have hc : closeFields st = flushed st := by unfold closeFields; rw [hl]
+    rw [hc]
+    refine restart_ok M st .clean (flushed st) _ hI hR hI.ndIdx rfl rfl ?_
+    show SEq (replay (st.idx.getD []) (cutLog (st.log.getD []) (logLen (st.log.getD []))).flatten) st.mem
+    rw [cutLog_full _ _ (Nat.le_refl _)]; exact hI.disk
+  | some recs =>
+    have hc : closeFields st = writeToFile (flushed st) := by unfold closeFields; rw [hl]
+    rw [hc]
+    refine restart_ok M st .clean (writeToFile (flushed st)) _ hI hR ?_ rfl rfl ?_
+    · show ND ((if st.mem.isEmpty then none else some st.mem : Option Schema).getD [])
       by_cases he : st.mem.isEmpty = true
       · simp only [he, if_true, Option.getD_none]; exact List.nodup_nil
       · simp only [he, Bool.false_eq_true, if_false, Option.getD_some]; exact hI.ndMem
-  · unfold closeFields; cases st.log <;> rfl
-  · unfold closeFields; cases st.log <;> rfl
-  · unfold closeFields
-    cases hl : st.log with
-    | none =>
-      simp only [hl, Option.getD_none, cutLog_nil, List.flatten_nil]
-      have := hI.disk
-      simp only [hl, Option.getD_none, List.flatten_nil] at this
-      exact this
-    | some recs =>
-      simp only [writeToFile, Option.getD_none, cutLog_nil, List.flatten_nil]
+    · show SEq (replay ((if st.mem.isEmpty then none else some st.mem : Option Schema).getD [])
+        (cutLog [] _).flatten) st.mem
+      rw [cutLog_nil]
       by_cases he : st.mem.isEmpty = true
       · simp only [he, if_true, Option.getD_none]
         rw [List.isEmpty_iff.1 he]; exact SEq.refl _
@@ -413,7 +421,7 @@ theorem crashInClose_ok (M : Mem) (st : PState) (p : CrashPoint) (hI : PInv st) 
         · simp [he] at hc
         · simp only [he, Bool.false_eq_true, if_false, Option.some.injEq] at hc
           subst hc
-          exact restart_ok M st _ st _ hI hR hI.ndIdx rfl rfl (crash_seq st hI)
+          exact restart_ok M st _ (flushed st) _ hI hR hI.ndIdx rfl rfl (crash_seq st hI)
       | renamed =>
         simp only at hc
         by_cases he : st.mem.isEmpty = true
@@ -425,10 +433,9 @@ theorem crashInClose_ok (M : Mem) (st : PState) (p : CrashPoint) (hI : PInv st) 
           · rfl
           · rfl
           · -- the new snapshot already contains the log: the replay is idempotent
-            show SEq (replay st.mem (cutLog recs (logLen recs)).flatten) st.mem
+            show SEq (replay st.mem (cutLog (st.log.getD []) (logLen (st.log.getD []))).flatten) st.mem
             rw [cutLog_full _ _ (Nat.le_refl _)]
             have hd := hI.disk
-            simp only [hl, Option.getD_some] at hd
             exact SEq.trans (replay_congr hd.symm _) (SEq.trans (replay_idem _ _) hd)
       | idxRemoved =>
         simp only at hc
@@ -439,13 +446,13 @@ theorem crashInClose_ok (M : Mem) (st : PState) (p : CrashPoint) (hI : PInv st) 
           · exact List.nodup_nil
           · rfl
           · rfl
-          · show SEq (replay [] (cutLog recs (logLen recs)).flatten) st.mem
+          · show SEq (replay [] (cutLog (st.log.getD []) (logLen (st.log.getD []))).flatten) st.mem
             rw [cutLog_full _ _ (Nat.le_refl _)]
             have hnil : st.mem = [] := List.isEmpty_iff.1 he
             rw [hnil]
             apply replay_nil_of_empty (st.idx.getD [])
             have hd := hI.disk
-            simp only [hl, Option.getD_some, hnil] at hd
+            rw [hnil] at hd
             exact hd
         · simp [he] at hc
 
@@ -818,6 +825,7 @@ theorem step_ok (M : Mem) (st : PState) (op : Op10) (hI : PInv st) (hR : Rel M s
   | crashInClose p => exact crashInClose_ok M st p hI hR
   | crashInOpen p => exact crashInOpen_ok M st p hI hR
   | race a b => exact race_ok M st a b hI hR
+  | snap => exact snap_ok M st hI hR
   | look => exact ⟨(look_ok M st hI hR).1, hI, (look_ok M st hI hR).2⟩
 
 theorem firstFailure_trace (M : Mem) (st : PState) (hI : PInv st) (hR : Rel M st) (ops : List Op10) :
